@@ -54,3 +54,8 @@ Definition request_uri (e : benv) : option str :=
 (* how a caller writes a literal percent sign into a URL path *)
 Definition esc_pct (s : str) : str := flat_map (fun c => if c =? 37 then [37; 50; 53] else [c]) s.
 Definition no_trailing_slash (s : str) : bool := negb (ends_with [47] s).
+
+(* EnvironBuilder.from_environ: PATH_INFO, SCRIPT_NAME and QUERY_STRING are decoded with the WSGI
+   dance and handed to the constructor, which encodes them again; None models a string outside latin-1 *)
+Definition from_environ_string (s : str) : option str :=
+  option_map wsgi_encoding_dance (wsgi_decoding_dance_replace s).
